@@ -87,6 +87,7 @@ func (cdb *CachedDatabase) CleanupExpiredCache() map[string]int {
 func (cdb *CachedDatabase) UpdateDatabase(commands []Command) {
 	cdb.Database.Commands = commands
 	cdb.Database.BuildUniversalIndex() // Rebuild universal index
+	cdb.Database.buildTFIDFSearcher()  // Rebuild TF-IDF re-ranker and command index map
 	cdb.InvalidateCache()              // Invalidate cache when database is updated
 }
 
